@@ -4,6 +4,7 @@ as insertion sources); every call is mirrored on a RefGraph; the scheduler picks
 
 from __future__ import annotations
 
+import copy
 from collections import Counter
 
 from ..kernel import HarnessError
@@ -326,6 +327,13 @@ class GraphSim:
                 g.h[hnd].metadata[key] = val
                 self.ctx.probe("handle_metadata_not_shared")
         g.m.nodes[idx].metadata[key] = val
+        # also reach inside a nested value when there is one (depth >= 3: {"nested": {"a": [..]}})
+        real = g.h[g.handles[idx]].metadata
+        inner_r, inner_m = real.get("nested"), g.m.nodes[idx].metadata.get("nested")
+        if isinstance(inner_r, dict) and isinstance(inner_r.get("a"), list) and ch.coin(1, 2, "nested-edit"):
+            inner_r["a"].append(len(self.ctx.events))
+            inner_m["a"].append(len(self.ctx.events))
+            self.ctx.probe("nested_metadata_edited_in_place")
         self.ctx.probe("metadata_edited_in_place")
         self.ctx.ev(actor, "metadata[k]=v", {"g": g.name, "idx": idx, "key": key})
         return ("edit_meta", idx)
@@ -337,7 +345,7 @@ class GraphSim:
         parent = self._pick_node(g, actor, "parent")
         md = None
         if self.use_meta and ch.coin(1, 3, "meta"):
-            md = dict(ch.pick(META_POOL, "meta-v"))
+            md = copy.deepcopy(ch.pick(META_POOL, "meta-v"))  # never hand the pool's own (nested) objects to the system under test
         kw = {}
         req = None
         mode = ch.draw(4, "num-outs-mode")
